@@ -1,4 +1,198 @@
-import LabreaModel.Eval
+/-
+  C05 — combinators evaluate to what the equivalent eager Python computation yields.
+
+  The interpreter's `evaluate` IS the eager reference semantics; this file states, for every
+  combinator, the equation the property text gives, for ALL sub-expressions, options, states and any
+  interpretation `run` of the children (in particular `run = ev env n` for every fuel `n`).
+  `s`, `s1`, … are states (cache contents, event log): children are run left to right, each from the
+  state the previous one left.
+-/
+import LabreaModel.MonadLemmas
 namespace Labrea
-theorem c05_placeholder : True := trivial
+
+variable (run : Run) (o : V)
+
+/-- `switch`: the branch registered under the dispatch value (Python `==`/hash equality of keys) -/
+theorem switch_registered (id : Nat) (d : Expr) (lookup : List (V × Expr)) (dflt : Option Expr) (s s1 : St)
+    (key k : V) (br : Expr) (hd : run .evaluate d o s = some (.ok key, s1)) (hh : hashable key = true)
+    (hl : lookup.find? (fun p => pyEq p.1 key) = some (k, br)) :
+    switchOp run id d lookup dflt .evaluate o s = run .evaluate (.dependsOn (tid id 1) br d) o s1 := by
+  simp [switchOp, switchLookup, bind_run, handle, hd, hh, hl]
+
+/-- `switch`: an unregistered dispatch value selects the default -/
+theorem switch_unregistered_default (id : Nat) (d : Expr) (lookup : List (V × Expr)) (df : Expr) (s s1 : St)
+    (key : V) (hd : run .evaluate d o s = some (.ok key, s1)) (hh : hashable key = true)
+    (hl : lookup.find? (fun p => pyEq p.1 key) = Option.none) :
+    switchOp run id d lookup (some df) .evaluate o s = run .evaluate (.dependsOn (tid id 1) df d) o s1 := by
+  simp [switchOp, switchLookup, bind_run, handle, hd, hh, hl]
+
+/-- `switch`: when the dispatch cannot be evaluated (any `EvaluationError`) the default is taken -/
+theorem switch_dispatch_fails_default (id : Nat) (d : Expr) (lookup : List (V × Expr)) (df : Expr) (s s1 : St)
+    (err : Err) (hd : run .evaluate d o s = some (.error err, s1)) (he : err.isEvaluationError = true) :
+    switchOp run id d lookup (some df) .evaluate o s = run .evaluate df o s1 := by
+  simp [switchOp, switchLookup, bind_run, handle, hd, he]
+
+/-- `switch`: no branch applies and there is no default — evaluation fails (it does not return a value) -/
+theorem switch_no_default_fails (id : Nat) (d : Expr) (lookup : List (V × Expr)) (s s1 : St)
+    (key : V) (hd : run .evaluate d o s = some (.ok key, s1)) (hh : hashable key = true)
+    (hl : lookup.find? (fun p => pyEq p.1 key) = Option.none) :
+    switchOp run id d lookup Option.none .evaluate o s = some (.error [{ cls := .switchErr, src := d.id }], s1) := by
+  simp [switchOp, switchLookup, bind_run, handle, hd, hh, hl]
+
+/-- `switch`: without a default, a dispatch that cannot be evaluated fails with the dispatch's own error -/
+theorem switch_dispatch_fails_no_default (id : Nat) (d : Expr) (lookup : List (V × Expr)) (s s1 : St)
+    (err : Err) (hd : run .evaluate d o s = some (.error err, s1)) (he : err.isEvaluationError = true) :
+    switchOp run id d lookup Option.none .evaluate o s = some (.error err, s1) := by
+  simp [switchOp, switchLookup, bind_run, handle, hd, he]
+
+/-- the helper `_DependsOn(result, dispatch)` evaluates to `result` -/
+theorem dependsOn_evaluate (env : Env) (n id : Nat) (x d : Expr) :
+    nodeOp env run n .evaluate (.dependsOn id x d) o = run .evaluate x o := by
+  simp [nodeOp]
+
+/-- `coalesce`: a member that validates and evaluates is the result; members after it are not touched -/
+theorem coalesce_first_evaluable (m : Expr) (rest : List Expr) (last : Option Err) (s s1 s2 : St) (u v : V)
+    (hv : run .validate m o s = some (.ok u, s1)) (he : run .evaluate m o s1 = some (.ok v, s2)) :
+    coalesceDelegate run .evaluate o last (m :: rest) s = some (.ok v, s2) := by
+  simp [coalesceDelegate, handle, bind_run, hv, he]
+
+/-- `coalesce`: a member that cannot be validated (any `EvaluationError`, e.g. a missing option) is skipped -/
+theorem coalesce_skips_unvalidatable (m : Expr) (rest : List Expr) (last : Option Err) (s s1 : St) (err : Err)
+    (hv : run .validate m o s = some (.error err, s1)) (he : err.isEvaluationError = true) :
+    coalesceDelegate run .evaluate o last (m :: rest) s = coalesceDelegate run .evaluate o (some err) rest s1 := by
+  simp [coalesceDelegate, handle, bind_run, hv, he]
+
+/-- `coalesce`: a member that validates but whose evaluation fails with an `EvaluationError` is skipped too -/
+theorem coalesce_skips_unevaluable (m : Expr) (rest : List Expr) (last : Option Err) (s s1 s2 : St) (u : V) (err : Err)
+    (hv : run .validate m o s = some (.ok u, s1)) (hx : run .evaluate m o s1 = some (.error err, s2))
+    (he : err.isEvaluationError = true) :
+    coalesceDelegate run .evaluate o last (m :: rest) s = coalesceDelegate run .evaluate o (some err) rest s2 := by
+  simp [coalesceDelegate, handle, bind_run, hv, hx, he]
+
+/-- `coalesce`: when no member can be evaluated the last failure is raised -/
+theorem coalesce_none_evaluable (err : Err) (s : St) :
+    coalesceDelegate run .evaluate o (some err) [] s = some (.error err, s) := by
+  simp [coalesceDelegate]
+
+/-- collections keep order: `Iter(e₁,…,eₙ)` evaluates its members left to right -/
+theorem iter_order (env : Env) (n id : Nat) (es : List Expr) :
+    nodeOp env run n .evaluate (.iter id es) o =
+      (do let vs ← mapM' (fun x => run .evaluate x o) es; pure (V.list vs)) := by
+  simp [nodeOp]
+
+theorem mapM'_cons {α β} (f : α → M β) (x : α) (xs : List α) :
+    mapM' f (x :: xs) = (do let y ← f x; let ys ← mapM' f xs; pure (y :: ys)) := rfl
+
+/-- `apply` / `>>`: the input is produced first, then the function expression, then the call -/
+theorem apply_evaluate (env : Env) (n id : Nat) (x f : Expr) (s s1 s2 : St) (v fn : V)
+    (hx : ∀ i es, x ≠ .iter i es) (hm : ∀ i y its, x ≠ .map i y its)
+    (h1 : run .evaluate x o s = some (.ok v, s1)) (h2 : run .evaluate f o s1 = some (.ok fn, s2)) :
+    nodeOp env run n .evaluate (.apply id x f) o s = call env fn [v] [] s2 := by
+  cases x <;> simp_all [nodeOp, bind_run]
+
+/-- `Map`: one `(assignment, result)` pair per element of the cartesian product, in `itertools.product`
+    order — the first iterable varies slowest -/
+theorem product_order_example :
+    product [[V.int 1, V.int 2], [V.str "a", V.str "b"]] =
+      [[.int 1, .str "a"], [.int 1, .str "b"], [.int 2, .str "a"], [.int 2, .str "b"]] := by decide
+
+theorem product_cons {α} (xs : List α) (rest : List (List α)) :
+    product (xs :: rest) = xs.flatMap fun x => (product rest).map fun r => x :: r := rfl
+
+theorem product_length {α} : ∀ (cols : List (List α)), (product cols).length = (cols.map List.length).foldr (· * ·) 1
+  | [] => rfl
+  | xs :: rest => by
+    simp only [product_cons, List.map_cons, List.foldr_cons, List.length_flatMap, List.length_map, product_length rest]
+    induction xs with
+    | nil => simp
+    | cons a as ih => simp [List.sum_cons, ih, Nat.add_mul, Nat.add_comm]
+
+/-- `Map`: each assignment is overlaid on the caller's options with force (the element is
+    `WithOptions(e, assignment)`), and the pair is `(assignment, value)` -/
+theorem map_element_overlay (id : Nat) (x : Expr) (a : List (String × V)) (d : List (String × V))
+    (h : optionSet a = some d) (s : St) :
+    mapElement id x a s = some (.ok (.withOptions (tid id 2) x (.dict d) true), s) := by
+  simp [mapElement, h]
+
+/-- `case`: the first case whose condition holds for the dispatch value -/
+theorem case_first_match (env : Env) (id : Nat) (d : Expr) (dflt : Option Expr) (v : V) (seen : List Expr)
+    (c r : Expr) (rest : List (Expr × Expr)) (s s1 s2 : St) (cf b : V)
+    (hc : run .evaluate c o s = some (.ok cf, s1)) (hb : call env cf [v] [] s1 = some (.ok b, s2))
+    (ht : b.truthy = true) :
+    chooseCase env run id d dflt o v seen ((c, r) :: rest) s = some (.ok (wrapDeps id r (seen ++ [c])), s2) := by
+  simp [chooseCase, bind_run, hc, hb, ht]
+
+/-- `case`: a case whose condition does not hold is passed over -/
+theorem case_no_match_next (env : Env) (id : Nat) (d : Expr) (dflt : Option Expr) (v : V) (seen : List Expr)
+    (c r : Expr) (rest : List (Expr × Expr)) (s s1 s2 : St) (cf b : V)
+    (hc : run .evaluate c o s = some (.ok cf, s1)) (hb : call env cf [v] [] s1 = some (.ok b, s2))
+    (ht : b.truthy = false) :
+    chooseCase env run id d dflt o v seen ((c, r) :: rest) s = chooseCase env run id d dflt o v (seen ++ [c]) rest s2 := by
+  simp [chooseCase, bind_run, hc, hb, ht]
+
+/-- `case`: no case matches and there is no default — evaluation fails -/
+theorem case_no_match_no_default (env : Env) (id : Nat) (d : Expr) (v : V) (seen : List Expr) (s : St) :
+    chooseCase env run id d Option.none o v seen [] s = some (.error [{ cls := .caseWhenErr, src := d.id }], s) := by
+  simp [chooseCase]
+
+/-- the wrapper `_DependsOn` around a chosen case result does not change its value -/
+theorem wrapDeps_evaluate (env : Env) (n : Nat) (id : Nat) (r : Expr) (c : Expr) (cs : List Expr) :
+    ∃ r', wrapDeps id r (c :: cs) = wrapDeps id (.dependsOn (tid id (2 + cs.length)) r c) cs ∧
+      nodeOp env run n .evaluate (.dependsOn (tid id (2 + cs.length)) r c) o = run .evaluate r o ∧ r' = r :=
+  ⟨r, rfl, by simp [nodeOp], rfl⟩
+
+/-- function application: arguments are produced before the body runs (positional, then keyword) -/
+theorem funapp_args (env : Env) (id : Nat) (f : Expr) (args : List Expr) (kw : List (String × Expr)) (s s1 : St) (fv : V)
+    (hf : run .evaluate f o s = some (.ok fv, s1)) :
+    applicationOp env run id f args kw false .evaluate o s =
+      ((do
+        let (as, ks) ← pseudo .evaluate (tid id 1) (do
+          let as ← pseudo .evaluate (tid id 2) (mapM' (fun x => run .evaluate x o) args)
+          let ks ← pseudo .evaluate (tid id 3) (mapM' (fun (p : String × Expr) => do
+            let v ← run .evaluate p.2 o
+            pure (p.1, v)) kw)
+          pure (as, ks))
+        call env fv as ks) : M V) s1 := by
+  simp [applicationOp, bind_run, hf]
+
+/-- a dataset is its implementation applied through its callback, under the overlaid options
+    (`WithDefaultOptions(WithOptions(cached(Logged(Computation(overloads.apply(callback))))))`) -/
+theorem dataset_expansion (env : Env) (n id ds : Nat) (op : Op) :
+    nodeOp env run n op (.dataset id ds) o =
+      let r := env.ds ds
+      let calculation := Expr.apply (tid id 1) (.overloaded (tid id 7) r.ov) r.callback
+      let base := if r.effectsDisabled then calculation else .computation (tid id 2) calculation r.effects
+      run op (.withOptions (tid id 6) (.withOptions (tid id 5)
+        (.cached (tid id 4) (.logged (tid id 3) base r.msg) r.cache) r.options true) r.defaultOptions false) o := by
+  simp [nodeOp]
+
+/-- an `Overloaded` is a `Switch` over the *current* table (read at every use) -/
+theorem overloaded_is_switch (env : Env) (n id ov : Nat) (op : Op) :
+    nodeOp env run n op (.overloaded id ov) o =
+      run op (.switch (tid id 1) (env.ov ov).dispatch (env.ov ov).table (env.ov ov).dflt) o := by
+  simp [nodeOp]
+
+/-! ### non-vacuity: the hypotheses are met by concrete evaluations (kernel-evaluated) -/
+
+def c05Env : Env :=
+  { β := fun f a k => .ok (.app f a k), binds := fun _ _ => .error "ValueError",
+    ov := fun _ => default, ds := fun _ => default, cacheKind := fun _ => .memory }
+
+def c05Switch : Expr :=
+  .switch 5 (.option 1 "K" Option.none Option.none) [(.str "x", .value 2 (.int 10)), (.int 1, .value 3 (.int 20))]
+    (some (.value 4 (.str "dflt")))
+
+/-- does `evaluate e o` (from the empty state, fuel 20) yield the value `v`? -/
+def evalIs (e : Expr) (o v : V) : Bool :=
+  match ev c05Env 20 .evaluate e o {} with
+  | some (.ok x, _) => decide (x = v)
+  | _ => false
+
+example : evalIs c05Switch (.dict [("K", .str "x")]) (.int 10) = true := by decide +kernel
+example : evalIs c05Switch (.dict [("K", .bool true)]) (.int 20) = true := by decide +kernel   -- True == 1
+example : evalIs c05Switch (.dict [("K", .str "q")]) (.str "dflt") = true := by decide +kernel
+example : evalIs c05Switch (.dict []) (.str "dflt") = true := by decide +kernel
+example : evalIs (.coalesce 3 [.option 1 "A" Option.none Option.none, .option 2 "B" Option.none Option.none])
+    (.dict [("B", .int 0)]) (.int 0) = true := by decide +kernel
+
 end Labrea
